@@ -155,7 +155,16 @@ def s_split(s, sep=None, maxsplit=-1):
     return out
 
 
+def s_replace(s, old, new, count=-1):
+    if count != -1:
+        raise Unsupported('str.replace with count')
+    if raw(old) == '':
+        raise Unsupported('str.replace of the empty string')
+    return raw(new).join(s_split(s, old))
+
+
 STR_MODELS = {
+    'replace': s_replace,
     'startswith': s_startswith,
     'endswith': s_endswith,
     'isspace': s_isspace,
@@ -563,6 +572,9 @@ def _call_other(f, tf, a, k):
     m = EXTRA_MODELS.get(id(f))
     if m is not None:
         return m(*a, **k)
+    if tf.__module__ == 'functools' and (has_symbolic(a) or (k and has_symbolic(tuple(k.values())))):
+        # lru_cache / partial objects hand their arguments to C code (hashing, comparison)
+        raise Unsupported('%s object called with symbolic data' % tf.__name__)
     return f(*a, **k)
 
 
